@@ -515,7 +515,7 @@ Print Assumptions C10_write_mdat_modes_differ.
    updateChunkOffsets (sizeWithoutMdat from the cropped tables) -> [non-mdat boxes] -> writeMdat.
    Input: any number of tracks with handler types; trak_wf per track = static_ok (consistent tables, track id <> 0, chunk
    offsets in [1,2^62) in ANY order, chunks inside the file), every stts delta positive, at least one sample, 32-bit
-   timescale; ms = the requested duration; rest = the bytes of the non-mdat boxes other than the eight table boxes.
+   timescale; distinct track ids (the domain on which the positional model mirrors the tool's map keyed by track id); ms = the requested duration; rest = the bytes of the non-mdat boxes other than the eight table boxes.
    NOTHING is assumed about the end time: that it lies inside every track follows from the tool succeeding.
    Whenever crop_mp4_file succeeds and writeMdat (lazy input mdat) succeeds, with pre = the encoded non-mdat boxes
    (any bytes of the length Size() gives them: rest + the table boxes of the OUTPUT tables):
@@ -531,7 +531,7 @@ Print Assumptions C10_write_mdat_modes_differ.
 Definition e2e_hs : list trak_h :=
   [mkTH 1 (mkTI 2 500 (mkTables [4] [10] None (mkStsc [mkEntry 1 2 1] 1 []) (mkStsz 3 4 []) None (Some [150; 250]) None None));
    mkTH 0 (mkTI 1 1000 ex_tb)].
-Example ex_e2e : Forall (trak_wf ex_file) (map th_trak e2e_hs) /\
+Example ex_e2e : Forall (trak_wf ex_file) (map th_trak e2e_hs) /\ distinct_ids e2e_hs /\
   exists sh rg, crop_mp4_file e2e_hs 45 60 = Ok (50, 1000, (sh, rg, [3; 4], 364)) /\
                 60 + sumN (map stbl_var_size sh) = 364 /\ map stbl_var_size sh = [116; 188].
 Proof.
@@ -541,11 +541,13 @@ Proof.
       split; vm_compute; [intros H; discriminate H|reflexivity].
     + split; [apply static_okb_ok; vm_compute; reflexivity|]. split; [vm_compute; reflexivity|].
       split; vm_compute; [intros H; discriminate H|reflexivity].
-  - eexists. eexists. vm_compute. repeat split.
+  - split.
+    { unfold distinct_ids. cbn. constructor; [intros [H|[]]; discriminate H|]. constructor; [intros []|constructor]. }
+    eexists. eexists. vm_compute. repeat split.
 Qed.
 Theorem C10_crop_end_to_end :
   forall file zeof startPos large payloadLen hs ms rest pre et ets shifted ranges ks swm outf,
-  Forall (trak_wf file) (map th_trak hs) ->
+  Forall (trak_wf file) (map th_trak hs) -> distinct_ids hs ->
   4611686018427387904 + 2 * total_bytes (map th_trak hs) < 18446744073709551616 ->
   0 < payloadLen -> lenN file < 9223372036854775808 ->
   crop_mp4_file hs ms rest = Ok (et, ets, (shifted, ranges, ks, swm)) ->
